@@ -1,6 +1,6 @@
 CONSTANTS
   Dev = {}
-  CatN = 30
+  CatN = 24
   RouteN = 3
   MaxDepth = 3
 INIT Init
